@@ -598,6 +598,8 @@ class C07(Check):
 
     def _link_wild(self, cfg, files, out, d, extra=()):
         r = tools.link("wild", self._wild_args(cfg, files, out, extra), cwd=d, env=self._env(cfg), timeout=120)
+        if r.timed_out:     # overloaded machine: one retry with a long timeout before giving up
+            r = tools.link("wild", self._wild_args(cfg, files, out, extra), cwd=d, env=self._env(cfg), timeout=600)
         if r.timed_out:
             raise Inconclusive("wild timed out (termination is C39/C40's subject)")
         return r
@@ -649,7 +651,9 @@ class C07(Check):
             return info
 
         # ---- reference: GNU ld; calibrates the predicates ----
-        lr = tools.link("ld", [*files, "-o", "ld.out", "--no-gc-sections"], cwd=d)
+        lr = tools.link("ld", [*files, "-o", "ld.out", "--no-gc-sections"], cwd=d, timeout=600)
+        if lr.timed_out:
+            raise Inconclusive("GNU ld timed out")
         if lr.rc != 0:
             raise Discard("GNU ld rejects the case: " + lr.err.strip().split("\n")[-1][:50])
         try:
@@ -725,7 +729,7 @@ class C07(Check):
 
     @staticmethod
     def _run(path, d):
-        r = tools.run(["/" + path.lstrip("/")], cwd=d, timeout=30, binary=True)
+        r = tools.run(["/" + path.lstrip("/")], cwd=d, timeout=300, binary=True)
         if r.timed_out:
             raise Inconclusive("linked program timed out")
         if r.rc != 0:
